@@ -300,6 +300,8 @@ def client_kwargs(cfg, world):
     elif c["serde"] >= 2:       # CompressedSerde around PickleSerde with the identity codec, min_compress_len = code - 2
         kw["serde"] = serde.CompressedSerde(compress=lambda b: b, decompress=lambda b: b, min_compress_len=c["serde"] - 2)
     server = ("mc.example", 11211) if c["tcp"] else "/tmp/mc.sock"
+    for name in c.get("omit", ()):      # options the constructor is NOT told: the class's own default applies (the cfg holds the documented one)
+        kw.pop(name, None)
     return server, kw
 
 
